@@ -270,6 +270,17 @@ func (g *gen) rootSelection(root *ast.Definition) string {
 	if len(parts) == 0 {
 		return ""
 	}
+	if g.o.Fragments && len(parts) >= 1 && g.chance(8, "rootfrag") {
+		// root fields inside an inline fragment on the root type (with or without type condition)
+		k := g.pick(len(parts), "rootfragfrom")
+		inner := strings.Join(parts[k:], " ")
+		cond := ""
+		if g.chance(60, "rootfragcond") {
+			cond = "on " + root.Name + " "
+		}
+		parts = append(append([]string{}, parts[:k]...), "... "+cond+"{ "+inner+" }")
+		g.label("rootInlineFragment")
+	}
 	return "{ " + strings.Join(parts, " ") + " }"
 }
 
